@@ -24,15 +24,18 @@ PINS = [('plasTeX/Context.py', 'ContextItem.__getitem__'), ('plasTeX/Context.py'
         ('plasTeX/Base/LaTeX/Arrays.py', 'Array.EndRow.invoke'),
         ('plasTeX/Base/LaTeX/Environments.py', 'begin.invoke'), ('plasTeX/Base/LaTeX/Environments.py', 'end.invoke'),
         ('plasTeX/TeX.py', 'TeX.createSubProcess'), ('plasTeX/TeX.py', 'TeX.endSubProcess'), ('plasTeX/TeX.py', 'TeX.expandTokens')]
-RULE = ('(a) API histories over 7 names x 2 characters x 5 object classes (environment begin/end pairs, a command pushed and popped by '
+RULE = ('(a) API histories over 8 names x 2 characters x 5 object classes (environment begin/end pairs, a command pushed and popped by '
         'identity, \\foo/\\endfoo, a document-level environment, an environment with class-local macros, objects whose parentNode is '
-        'another object): all sequences of a bounded length over a core alphabet and over the full alphabet, random balanced histories '
+        'another object): ALL sequences of length <= 6 (quick; 7 thorough) over a core alphabet of 8 operations and of length <= 4 over '
+        'the full alphabet of 28 (each case = a prefix + the fan of all last operations, so one case stands for 8 resp. 28 histories, '
+        'every one observed after every operation), random balanced histories '
         '(nested to depth 6, with unclosed inner groups closed by the enclosing object) and random unbalanced/malformed ones (pops '
         'without push, mismatched closers, category codes > 15); every history is observed after every operation. '
         '(b) balanced programs: nestings (depth <= 5) of {}, \\begingroup..\\endgroup, center/quote/itemize, $..$, $$..$$, \\[..\\], '
         'tabular cells and rows, \\textbf/\\emph/\\mbox/\\footnote/\\underline arguments with \\def, \\gdef, \\newcommand, \\let, \\catcode, '
-        '\\makeatletter/\\makeatother, \\newif, \\newcounter/\\setcounter and uses of the defined macros in between; plus environments closed '
-        'over an unclosed group. Non-trivial = the history has a group with a local change inside it and an observation after it closes.')
+        '\\makeatletter/\\makeatother, \\newif, \\newcounter/\\setcounter, \\global\\def/\\global\\let and uses of the defined macros in '
+        'between; all 13 local changes x 14 group kinds x 2 nestings exhaustively; plus environments closed over an unclosed group and '
+        'groups closed over an unclosed environment. Non-trivial = the history has a group with a local change inside it and an observation after it closes.')
 TRUSTED = ['program level: the translation of a generated program into the operation history its constructs stand for '
            '(harness/props/C04.py compile_prog) is glue; only lookups, category codes, cells and the depth between top-level '
            'constructs are compared there, never the number of frames a construct uses internally',
@@ -40,8 +43,9 @@ TRUSTED = ['program level: the translation of a generated program into the opera
            'ContextItem.parent as "next frame down" (argued in Model/Context.v, exercised by the frame dumps)',
            'category-table algebra (which_code, set_catcode): Model/Tokenizer.v of C01, regenerated tables Gen/Catcodes.v']
 ASSUMPTIONS = ['balanced histories do not push a document-level object inside a group (Context.push discards all frames then)',
-               'program level, main stream: numbers are terminated by \\relax; a control sequence \\let to a character is not redefined '
-               'while the alias is visible; \\global is not used as a prefix (those three are the extended streams / known findings)']
+               'program level, main streams: numbers are terminated by \\relax; a control sequence \\let to a character is not redefined '
+               'while the alias is visible (the two excluded classes are generated in the prog-ext-* streams: known findings '
+               'C04-number-lookahead, C04-redefine-char-let)']
 CASE_TIMEOUT = 20
 
 NAMES = ['qa', 'qb', 'ifqq', 'qqtrue', 'qqfalse', 'theqc', 'qz', 'ql']
@@ -88,6 +92,8 @@ def wire_op(objs, op):
         return [4, op[1], op[2]]
     if k == 'gletm':
         return [12, op[1], op[2]]
+    if k == 'glett':
+        return [13, op[1], op[2]]
     if k == 'lett':
         return [5, op[1], op[2]]
     if k == 'cat':
@@ -110,7 +116,7 @@ def probes_for(ops):
     names = set([0, 1])
     cells = set()
     for o in ops:
-        if o[0] in ('addl', 'addg', 'get', 'lett'):
+        if o[0] in ('addl', 'addg', 'get', 'lett', 'glett'):
             names.add(o[1])
         elif o[0] in ('letm', 'gletm'):
             names.update(o[1:3])
@@ -214,6 +220,10 @@ class ApiRun(object):
             ctx.let(EscapeSequence(NAMES[op[1]]), EscapeSequence(NAMES[op[2]]))
         elif k == 'lett':
             ctx.let(EscapeSequence(NAMES[op[1]]), Other(chr(op[2])))
+        elif k == 'gletm':      # \global\let (Context.let(..., local=False), notes/C04/fix-1.diff)
+            ctx.let(EscapeSequence(NAMES[op[1]]), EscapeSequence(NAMES[op[2]]), local=False)
+        elif k == 'glett':
+            ctx.let(EscapeSequence(NAMES[op[1]]), Other(chr(op[2])), local=False)
         elif k == 'cat':
             ctx.catcode(chr(op[1]), op[2])
         elif k == 'verb':
@@ -356,7 +366,8 @@ def core_alphabet():
 
 
 def full_alphabet():
-    return core_alphabet() + [['addl', 1, None], ['addg', 1, None], ['lett', 0, 120], ['cat', 33, 13], ['cat', 64, 12], ['verb'],
+    return core_alphabet() + [['addl', 1, None], ['addg', 1, None], ['lett', 0, 120], ['lett', 0, 121], ['gletm', 1, 0], ['glett', 0, 122],
+                              ['cat', 33, 13], ['cat', 64, 12], ['verb'],
                               ['get', 1], ['push', 2], ['pop', 2], ['pop', 3], ['push', 4], ['push', 5], ['pop', 6], ['pop', 7],
                               ['newif', None], ['newc', None], ['set', 1, 5]]
 
@@ -382,8 +393,10 @@ def rand_simple(rng, allow_if):
         return ['addg', rng.choice([0, 1, 1]), None]
     if r < 0.46:
         return ['letm', rng.choice([0, 1]), rng.choice([0, 1, 6])]
-    if r < 0.52:
+    if r < 0.50:
         return ['lett', rng.choice([0, 1]), rng.choice([120, 121])]
+    if r < 0.52:
+        return rng.choice([['gletm', rng.choice([0, 1]), rng.choice([0, 1, 6])], ['glett', rng.choice([0, 1]), rng.choice([122, 123])]])
     if r < 0.72:
         return ['cat', rng.choice(CHARS), rng.choice([11, 12, 13, 11, 12, 0, 14])]
     if r < 0.76:
@@ -484,6 +497,16 @@ def streams(rng, tier, boost):
         out.append(('api-exhaustive-core', c))
     for c in fan_cases(full_alphabet(), nfull, std):
         out.append(('api-exhaustive-full', c))
+    for _ in range((3000 if quick else 30000) * boost):      # longer histories over the full alphabet, sampled
+        alpha = full_alphabet()
+        ops = [rng.choice(alpha) for _ in range(rng.randint(5, 10))]
+        seen = False
+        for i, o in enumerate(ops):
+            if seen and rng.random() < 0.08:
+                ops[i] = ['set', 0, rng.randint(0, 1)]
+            elif o[0] == 'newif':
+                seen = True
+        out.append(('api-long-sample', dict(kind='api', objs=std, ops=number_ops(ops), dump=0)))
     for _ in range((4000 if quick else 40000) * boost):
         objs = []
         ops = rand_balanced(rng, rng.choice([2, 3, 4, 6]), objs, [False], True)
@@ -501,7 +524,7 @@ def streams(rng, tier, boost):
     for _ in range(40 if quick else 200):
         out.append(('prog-ext-lookahead', rand_lookahead(rng)))
         out.append(('prog-ext-charlet', rand_charlet(rng)))
-        out.append(('prog-ext-global-prefix', rand_gprefix(rng)))
+        out.append(('prog-global-prefix', rand_gprefix(rng)))
     return out
 
 
@@ -552,6 +575,10 @@ def print_item(it):
     if k == 'gprefix':
         if it[1] == 'def':
             return '\\global\\def\\%s{\\logv{%d}}' % (NAMES[it[2]], it[3])
+        if it[1] == 'longdef':
+            return '\\global\\long\\def\\%s{\\logv{%d}}' % (NAMES[it[2]], it[3])
+        if it[1] == 'lettok':
+            return '\\global\\let\\%s=%s' % (NAMES[it[2]], chr(it[3]))
         return '\\global\\let\\%s\\%s ' % (NAMES[it[2]], NAMES[it[3]])
     if k == 'grp':
         kind, body = it[1], print_items(it[2])
@@ -630,8 +657,10 @@ def compile_prog(case):
         elif k == 'probe':
             marks.append(('probe', len(ops), depth == 0))
         elif k == 'gprefix':       # what TeX does: a global definition / a global \let
-            if it[1] == 'def':
+            if it[1] in ('def', 'longdef'):
                 ops.append(['addg', it[2], it[3]])
+            elif it[1] == 'lettok':
+                ops.append(['glett', it[2], it[3]])
             else:
                 ops.append(['gletm', it[2], it[3]])
         elif k == 'grp':
@@ -931,10 +960,23 @@ def rand_charlet(rng):
 
 
 def rand_gprefix(rng):
-    """\\global\\def / \\global\\let inside a group"""
-    kind = rng.choice(['brace', 'begingroup', 'center', 'math', 'textbf'])
-    it = ['gprefix', 'def', rng.choice([0, 1]), 7]
-    return dict(kind='prog', ext='gprefix', prog=[['def', 0, 1], ['probe'], ['grp', kind, [it, ['probe']]], ['use', 0], ['use', 1], ['probe']])
+    """\\global\\def, \\global\\long\\def, \\global\\let inside groups (the \\global prefix, notes/C04/fix-1.diff)"""
+    g = PGen(rng, 2)
+    kind = rng.choice(['brace', 'begingroup', 'center', 'math', 'textbf', 'tabular'])
+    r = rng.random()
+    if r < 0.4:
+        it = ['gprefix', 'def', rng.choice([0, 1]), 70]
+    elif r < 0.55:
+        it = ['gprefix', 'longdef', rng.choice([0, 1]), 71]
+    elif r < 0.8:
+        it = ['gprefix', 'let', 1, rng.choice([0, 6])]
+    else:
+        it = ['gprefix', 'lettok', 7, 122]
+    body = g.items(1, kind == 'math', kind == 'textbf', True, rng.randint(0, 2)) + [it, ['probe']]
+    if rng.random() < 0.4:
+        body = [['grp', 'brace', body], ['probe']]
+    node = ['tabular', [[[['probe']], body]]] if kind == 'tabular' else ['grp', kind, body]
+    return dict(kind='prog', prog=[['def', 0, 1], ['probe'], node, ['use', 0], ['use', 1], ['probe']])
 
 
 def worker_init():
@@ -942,25 +984,41 @@ def worker_init():
     texrun.quiet()
 
 
+def describe_op(objs, o):
+    if o[0] in ('push', 'pop'):
+        if o[1] < 0:
+            return o[0] + '()'
+        t, m, p = objs[o[1]]
+        return '%s(<%s#%d mode=%d%s>)' % (o[0], OTYPES[t][0], o[1] + 1, m, (' parent=#%d' % (p + 1)) if p >= 0 else '')
+    if o[0] in ('addl', 'addg'):
+        return '%s(%s := v%d)' % ({'addl': 'addLocal', 'addg': 'addGlobal'}[o[0]], NAMES[o[1]], o[2])
+    if o[0] == 'letm':
+        return 'let(\\%s, \\%s)' % (NAMES[o[1]], NAMES[o[2]])
+    if o[0] == 'lett':
+        return 'let(\\%s, %r)' % (NAMES[o[1]], chr(o[2]))
+    if o[0] == 'gletm':
+        return 'let(\\%s, \\%s, local=False)' % (NAMES[o[1]], NAMES[o[2]])
+    if o[0] == 'glett':
+        return 'let(\\%s, %r, local=False)' % (NAMES[o[1]], chr(o[2]))
+    if o[0] == 'cat':
+        return 'catcode(%r, %d)' % (chr(o[1]), o[2])
+    if o[0] == 'get':
+        return 'context[%r]' % NAMES[o[1]]
+    if o[0] == 'verb':
+        return 'setVerbatimCatcodes()'
+    if o[0] == 'newif':
+        return "newif('ifqq')"
+    if o[0] == 'newc':
+        return "newcounter('qc')"
+    if o[0] == 'set':
+        return ('ifqq.state = %s' % bool(o[2])) if o[1] == 0 else ("counters['qc'].setcounter(%d)" % o[2])
+    return '%s%s' % (o[0], tuple(o[1:]))
+
+
 def describe(case):
     if case['kind'] == 'api':
         def d(o):
-            if o[0] in ('push', 'pop'):
-                if o[1] < 0:
-                    return o[0] + '()'
-                t, m, p = case['objs'][o[1]]
-                return '%s(<%s#%d mode=%d%s>)' % (o[0], OTYPES[t][0], o[1] + 1, m, (' parent=#%d' % (p + 1)) if p >= 0 else '')
-            if o[0] in ('addl', 'addg'):
-                return '%s(%s := v%d)' % ({'addl': 'addLocal', 'addg': 'addGlobal'}[o[0]], NAMES[o[1]], o[2])
-            if o[0] == 'letm':
-                return 'let(\\%s, \\%s)' % (NAMES[o[1]], NAMES[o[2]])
-            if o[0] == 'lett':
-                return 'let(\\%s, %r)' % (NAMES[o[1]], chr(o[2]))
-            if o[0] == 'cat':
-                return 'catcode(%r, %d)' % (chr(o[1]), o[2])
-            if o[0] == 'get':
-                return 'context[%r]' % NAMES[o[1]]
-            return '%s%s' % (o[0], tuple(o[1:]))
+            return describe_op(case['objs'], o)
         return ('Context(); ' + '; '.join(d(o) for o in case['ops'])
                 + (('; then one of: ' + ' | '.join(d(o) for o in case['fan'])) if case.get('fan') else ''))
     return source(case)
@@ -984,7 +1042,7 @@ def has_local_change_in_group(ops):
 def nontrivial(case, io):
     if case['kind'] == 'api':
         return has_local_change_in_group(case['ops'] + case.get('fan', [])[:1])
-    return True
+    return has_local_change_in_group(compile_prog(case)[1])
 
 
 def tags(case, io):
@@ -1008,6 +1066,34 @@ def tags(case, io):
             t.append('impl-raises')
         if case.get('fan'):
             t.append('fan=%d' % len(case['fan']))
+    else:
+        kinds = set()
+        depth = [0]
+
+        def walk(items, d):
+            depth[0] = max(depth[0], d)
+            for it in items:
+                if it[0] == 'grp':
+                    kinds.add(it[1])
+                    walk(it[2], d + 1)
+                elif it[0] == 'tabular':
+                    kinds.add('tabular')
+                    for r in it[1]:
+                        for c in r:
+                            walk(c, d + 2)
+                elif it[0] in ('loose-env', 'loose-grp'):
+                    kinds.add(it[0])
+                    walk(it[2], d + 1)
+                    walk(it[3], d + 2)
+                elif it[0] in ('cat', 'atletter', 'atother'):
+                    kinds.add('catcode')
+                elif it[0] in ('gprefix', 'let', 'lettok', 'gdef'):
+                    kinds.add(it[0])
+        walk(case['prog'], 0)
+        t += ['in:' + k for k in sorted(kinds)]
+        t.append('prog-nesting=%d' % min(depth[0], 8))
+        if case.get('ext'):
+            t.append('ext:' + case['ext'])
     return t
 
 
@@ -1038,7 +1124,49 @@ def judge(case, io, mo):
     return judge_prog(case, io, mo)
 
 
+def group_segments(objs, ops):
+    """[(i, j)]: ops[i] is a push, ops[j] the pop that closes it, and everything in between is strictly balanced
+    (Spec/Scope.v: Push o :: b ++ [Pop p] with brackets o p and Bal Strict b)"""
+    out = []
+    st = []          # (index of push, object index, still strict?)
+    for j, op in enumerate(ops):
+        if op[0] == 'push':
+            doc = op[1] >= 0 and OTYPES[objs[op[1]][0]][2]
+            if doc:
+                st = [(i, o, False) for (i, o, _) in st]     # a document-level push discards the open frames
+            st.append((j, op[1], not doc))
+        elif op[0] == 'pop':
+            if not st:
+                continue
+            i, o, ok = st.pop()
+            good = ok and ((o < 0) == (op[1] < 0)) and (o < 0 or closes(objs, o, op[1]))
+            if good:
+                out.append((i, j))
+            else:
+                st = [(i2, o2, False) for (i2, o2, _) in st]  # a mismatched closer may pop through enclosing frames
+        elif op[0] == 'cat' and op[2] > 15:
+            st = [(i2, o2, False) for (i2, o2, _) in st]
+    return out
+
+
+def gwrites(op):
+    """names an operation may define in the global namespace (Spec/Scope.v no_gwrite)"""
+    if op[0] == 'addg':
+        return [op[1]]
+    if op[0] in ('letm', 'gletm'):
+        return [op[2]] + ([op[1]] if op[0] == 'gletm' else [])
+    if op[0] == 'get':
+        return [op[1]]
+    if op[0] == 'newif':
+        return [2, 3, 4]
+    if op[0] == 'newc':
+        return [5]
+    return []
+
+
 def judge_api(case, io, mo):
+    """the Spec's clauses evaluated on the implementation's own observations; a disagreement with the Model that breaks none of them
+    is reported as such (violation=False)"""
     ops = case['ops']
     fan = case.get('fan', [])
     probes = probes_for(ops + fan)
@@ -1046,7 +1174,7 @@ def judge_api(case, io, mo):
         return dict(violation=False, key='C04:api:impl-failed', expected=None, what='the implementation run failed: %s' % (str(io)[:300],))
     pnames = [NAMES[i] for i in probes[0]]
     obs = [dec(x, probes) for x in io]
-    # clause: name lookup always yields the innermost live definition (judged on the implementation's own frames)
+    # clause: name lookup (macros and aliases) always yields the innermost live definition (judged on the implementation's own frames)
     for i, ob in enumerate(obs):
         if ob['frames'] is None:
             continue
@@ -1055,35 +1183,57 @@ def judge_api(case, io, mo):
                 return dict(violation=True, key='C04:api:lookup-not-innermost', expected=innermost(ob['frames'], ki),
                             what='after %d operations context.top[%r] is %s but the innermost frame that binds it holds %s'
                                  % (i, pnames[ki], ob['look'][ki], innermost(ob['frames'], ki)))
+            li = next((f['lets'][ki] for f in ob['frames'] if f['lets'][ki] != -1), -1)
+            if ob['lets'][ki] != li:
+                return dict(violation=True, key='C04:api:alias-not-innermost', expected=li,
+                            what='after %d operations get_let(\\%s) is %s but the innermost frame with an alias for it holds %s'
+                                 % (i, pnames[ki], ob['lets'][ki], li))
     mobs = [dec(x, probes) for x in mo] if well_formed_obs(mo, len(io)) else None
-    # restoration clauses: for the prefix, and for prefix + each operation of the fan
-    hist = [(ops, len(ops))] + [(ops + [f], len(ops) + 1 + j) for j, f in enumerate(fan)]
-    for h, idx in hist:
-        if not h or not strictly_balanced(case['objs'], h):
-            continue
-        first, last = obs[0], obs[idx]
-        if last['depth'] != first['depth']:
-            return dict(violation=True, key='C04:api:depth', expected=first['depth'],
-                        what='balanced history %s: len(contexts) is %d afterwards, was %d' % (h, last['depth'], first['depth']))
-        if last['which'] != first['which'] or last['lets'] != first['lets']:
-            return dict(violation=True, key='C04:api:not-restored', expected=[first['which'], first['lets']],
-                        what='balanced history %s: category codes / aliases in force afterwards (%s, %s) are not those from before (%s, %s)'
-                             % (h, last['which'], last['lets'], first['which'], first['lets']))
-        if last['frames'] is not None and (last['frames'][:-1] != first['frames'][:-1] or
-                                           any(last['frames'][-1][x] != first['frames'][-1][x] for x in ('obj', 'lets', 'codes'))):
-            return dict(violation=True, key='C04:api:not-restored', expected=first['frames'],
-                        what='balanced history %s: frames differ from those in force before it' % (h,))
-        if mobs is not None and (last['look'] != mobs[idx]['look'] or last['cells'] != mobs[idx]['cells']):
-            return dict(violation=True, key='C04:api:global-effect', expected=mobs[idx],
-                        what='balanced history %s: definitions / cells afterwards (%s, %s) are not those its global definitions give (%s, %s)'
-                             % (h, last['look'], last['cells'], mobs[idx]['look'], mobs[idx]['cells']))
+    # restoration clauses, for every group of the history (prefix, and prefix + each operation of the fan)
+    hists = [(ops, None)] + [(ops + [f], len(ops) + 1 + j) for j, f in enumerate(fan)]
+    for h, fanidx in hists:
+        def at(t):           # observation before operation t of h (t = len(h): after the last one)
+            return obs[t] if (fanidx is None or t < len(h)) else obs[fanidx]
+        for i, j in group_segments(case['objs'], h):
+            if fanidx is not None and j != len(h) - 1:
+                continue     # already judged with the prefix
+            before, after = at(i), at(j + 1)
+            seg = [describe_op(case['objs'], o) for o in h[i:j + 1]]
+            if after['depth'] != before['depth']:
+                return dict(violation=True, key='C04:api:depth', expected=before['depth'],
+                            what='group %s: len(contexts) is %d after it, was %d before' % (seg, after['depth'], before['depth']))
+            galias = set(o[1] for o in h[i:j + 1] if o[0] == 'glett')
+            keep = [ki for ki, n in enumerate(probes[0]) if n not in galias]
+            if after['which'] != before['which'] or [after['lets'][ki] for ki in keep] != [before['lets'][ki] for ki in keep]:
+                return dict(violation=True, key='C04:api:not-restored', expected=[before['which'], before['lets']],
+                            what='group %s: category codes / aliases in force after it (%s, %s) are not those from before (%s, %s)'
+                                 % (seg, after['which'], after['lets'], before['which'], before['lets']))
+            written = set(k for o in h[i:j + 1] for k in gwrites(o))
+            for ki, n in enumerate(probes[0]):
+                if n not in written and after['look'][ki] != before['look'][ki]:
+                    return dict(violation=True, key='C04:api:not-restored', expected=before['look'][ki],
+                                what='group %s: \\%s was not defined globally inside, but its meaning after the group (%s) is not the one '
+                                     'from before (%s)' % (seg, NAMES[n], after['look'][ki], before['look'][ki]))
+            if after['frames'] is not None and before['frames'] is not None and (
+                    after['frames'][:-1] != before['frames'][:-1] or
+                    any(after['frames'][-1][x] != before['frames'][-1][x] for x in ('obj', 'codes')) or
+                    [after['frames'][-1]['lets'][ki] for ki in keep] != [before['frames'][-1]['lets'][ki] for ki in keep]):
+                return dict(violation=True, key='C04:api:not-restored', expected=before['frames'],
+                            what='group %s: the frames after it are not those from before' % (seg,))
+        # global definitions and cells survive: a history that is one group, compared with the global effect the Spec assigns to it
+        idx = len(h) if fanidx is None else fanidx
+        if mobs is not None and h and (0, len(h) - 1) in group_segments(case['objs'], h) and \
+                (obs[idx]['look'] != mobs[idx]['look'] or obs[idx]['cells'] != mobs[idx]['cells'] or obs[idx]['lets'] != mobs[idx]['lets']):
+            return dict(violation=True, key='C04:api:global-effect', expected=[mobs[idx]['look'], mobs[idx]['cells']],
+                        what='group %s: definitions / aliases / cells after it (%s, %s, %s) are not those its global definitions give (%s, %s, %s)'
+                             % ([describe_op(case['objs'], o) for o in h], obs[idx]['look'], obs[idx]['lets'], obs[idx]['cells'],
+                                mobs[idx]['look'], mobs[idx]['lets'], mobs[idx]['cells']))
     k = next((i for i in range(min(len(io), len(mo))) if io[i] != mo[i]), None) if isinstance(mo, list) else None
     return dict(violation=False, key='C04:api:model-differs', expected=mo[k] if k is not None else mo,
                 what='implementation and Model differ at observation %s (%s vs %s)' % (k, io[k] if k is not None else io, mo[k] if k is not None else mo))
 
 
-EXT_KEYS = {'lookahead': 'C04:prog:number-lookahead-closes-group', 'charlet': 'C04:prog:redefine-char-let',
-            'gprefix': 'C04:prog:global-prefix-ignored'}
+EXT_KEYS = {'lookahead': 'C04:prog:number-lookahead-closes-group', 'charlet': 'C04:prog:redefine-char-let'}
 
 
 def judge_prog(case, io, mo):
@@ -1179,10 +1329,16 @@ def shrink(case):
                 elif x[0] == 'set' and x[1] == 0 and not seen:
                     return False
             return True
-        for i in range(len(ops)):
-            c = ops[:i] + ops[i + 1:]
-            if ok(c):
-                yield dict(case, ops=c)
+        n = len(ops)
+        seen = 0
+        size = n // 2
+        while size >= 1 and seen < 40:           # delta debugging: big cuts first (core tries the first 40 candidates per round)
+            for i in range(0, n, size):
+                c = ops[:i] + ops[i + size:]
+                if c != ops and ok(c):
+                    yield dict(case, ops=c)
+                    seen += 1
+            size //= 2
         for i in range(len(ops)):
             for j in range(i + 1, len(ops)):
                 if ops[i][0] == 'push' and ops[j][0] == 'pop':
